@@ -123,6 +123,18 @@ func unitsFor(prog *Program, prop string) []checkUnit {
 				}
 			}
 		}
+		// a coroutine may submit a transaction on any table: every coroutine unit is run for every property
+		// a guarantee obligation can be charged to (only the obligations tagged with the property count)
+		if !serves {
+			for _, d := range ct.Directives["ghostdb"] {
+				if strings.TrimSpace(d) == "coroutine" {
+					switch prop {
+					case "C01", "C02", "C04", "C05", "C06", "C07", "C08", "C09", "C10":
+						serves = true
+					}
+				}
+			}
+		}
 		if !serves {
 			continue
 		}
